@@ -589,7 +589,8 @@ fn shard_run(
         cases: cases as u32,
         failure_persistence: None,
         rng_seed: RngSeed::Fixed(seed ^ (shard as u64).wrapping_mul(0x9e3779b97f4a7c15) ^ id_hash),
-        max_shrink_iters: 4000,
+        max_shrink_iters: 3000,
+        max_shrink_time: std::env::var("VERIF_SHRINK_MS").ok().and_then(|s| s.parse().ok()).unwrap_or(45_000),
         max_global_rejects: 1,
         ..Config::default()
     };
@@ -725,6 +726,9 @@ pub fn replay_file(check: &dyn Check, path: &str) -> Result<(ReplayOutcome, Valu
         ..Default::default()
     };
     let (r, _) = run_one(check, &data, &mut ctx);
+    if std::env::var("VERIF_SHOW_CASE").is_ok() {
+        out(&serde_json::to_string_pretty(&ctx.desc.clone().unwrap_or(Value::Null)).unwrap_or_default());
+    }
     Ok((
         match r {
             Ok(()) => ReplayOutcome::Pass,
